@@ -38,9 +38,20 @@ def _passes(ctx, rule, fk, callee, pairs):
         ctx.bad(rule, fk, "%s no longer forwards to %s" % (fk, callee), fn.loc(), detail="forward")
         return False
     ok = True
+    # the Ordering arguments are found by type, in declaration order (a callee that gained or lost an unrelated parameter keeps
+    # its Ordering parameters in the same relative order)
+    cfn = prog.fn(callee)
+    if cfn is not None:
+        ords = [l - 1 for l in range(1, cfn.body.arg_count + 1) if cfn.body.locals[l]["ty"].endswith("atomic::Ordering")]
+        if len(ords) == len(pairs):
+            pairs = [(ords[j], pn) for j, (ai_, pn) in enumerate(sorted(pairs))]
     for (b, t) in cs:
         body = prog.fns[b[1]].body if isinstance(b, tuple) else fn.body
         for (ai, pname) in pairs:
+            if ai >= len(t["args"]):
+                ok = False
+                ctx.bad(rule, fk, "%s no longer hands an ordering to %s (argument %d)" % (fk, callee.split("::")[-1], ai), fn.loc(), detail="forward")
+                continue
             got = ordering_ordinal(prog, b[1] if isinstance(b, tuple) else fk, body.expr_of_operand(t["args"][ai]))
             want = ("ord", ORD_POS[pname])
             if got != want:
@@ -284,6 +295,8 @@ def O3(ctx):
         for x in subexprs(seed):
             if x[0] == "agg" and x[1] == "std::ops::RangeTo" and x[3]:
                 end = strip(x[3][0])
+                while end[0] == "field":
+                    end = strip(end[1])         # `(buf, n) = matcher()`: a component of the matcher's result
                 uses_n = end[0] == "call" and end[1] == matcher
         # the seed buffer handed to the matcher is the one sliced for push_load
         idx = strip(arg_expr(body, cons[1], 2))
